@@ -28,7 +28,7 @@ ASSUMPTIONS = ["json.dumps / json.loads are inverse on JSON values (trusted text
                "cryptojwt JWS/JWE sign/verify and encrypt/decrypt are correct (exercised by the oracle)",
                "percent-decoded bytes that are not valid UTF-8 are outside the modelled fragment (Unmodelled)"]
 
-IMP = ["Lib.Base", "Lib.PyStr", "Lib.MsgSchema", "Model.Msg", "Model.MsgCheck"]
+IMP = ["Lib.Base", "Lib.PyStr", "Lib.MsgSchema", "Model.Msg", "Model.MsgRules", "Model.MsgCheck"]
 LISTK = ("list", "spsep")
 
 
